@@ -30,6 +30,9 @@ type c01Case struct {
 	FnName      string   `json:"fnName,omitempty"`
 	Ext         bool     `json:"ext,omitempty"`
 	Frontend    bool     `json:"frontendInit,omitempty"`
+	// InitDelayMs: the first runtime process takes this long before it polls for the first time, so that the first
+	// invocation waits for the initialisation: the deadline must still be anchored at its arrival
+	InitDelayMs int `json:"initDelayMs,omitempty"`
 }
 
 func (c *c01Case) scenario() *Scenario {
@@ -45,6 +48,9 @@ func (c *c01Case) scenario() *Scenario {
 	// one runtime script per launch; a crash/stall ends a launch
 	var scripts []Script
 	cur := []Step{}
+	if c.InitDelayMs > 0 {
+		cur = append(cur, Step{Op: "sleep", Ms: c.InitDelayMs})
+	}
 	flush := func() { scripts = append(scripts, Script{Steps: cur}); cur = []Step{} }
 	for i, inv := range c.Invs {
 		tag := fmt.Sprintf("i%d", i)
@@ -122,7 +128,11 @@ func c01Check(c c01Case) kit.Outcome {
 	if afterBad {
 		out.Label("nt:after-failure")
 	}
-	out.Sample = map[string]any{"invs": c.Invs, "timeoutMs": c.TimeoutMs, "ext": c.Ext, "frontendInit": c.Frontend}
+	out.Sample = map[string]any{"invs": c.Invs, "timeoutMs": c.TimeoutMs, "ext": c.Ext, "frontendInit": c.Frontend, "initDelayMs": c.InitDelayMs}
+	if c.InitDelayMs > 0 {
+		out.Label("slow-first-init")
+		out.Nontrivial = true
+	}
 
 	if run.Died {
 		out.Violate("C01/host-died/"+panicKind(run.Stderr), "emulator process died: %s", panicLine(run.Stderr))
@@ -222,6 +232,12 @@ func c01Check(c c01Case) kit.Outcome {
 			lo, hi := iss.WallMs+tmo-3, e.WallMs+tmo+3
 			if dl < lo || dl > hi {
 				out.Violate("C01/deadline", "invocation %s: deadline %d outside [%d, %d] (arrival %d + timeout %d .. delivery %d + timeout)", tag, dl, lo, hi, iss.WallMs, tmo, e.WallMs)
+				return out
+			}
+			// arrival-anchored: however long the invocation waited (for an initialisation, for the runtime), the deadline is
+			// arrival + timeout; the tolerance covers the way from my clock reading to the front end (plus host starvation)
+			if tol := int64(250 + 2*tr.MaxLagMs); dl > iss.WallMs+tmo+tol {
+				out.Violate("C01/deadline-not-arrival-anchored", "invocation %s: deadline is %d ms after arrival + timeout (it waited %d ms before it was delivered)", tag, dl-iss.WallMs-tmo, e.WallMs-iss.WallMs)
 				return out
 			}
 		}
@@ -342,6 +358,8 @@ func c01Gen(t *rapid.T) c01Case {
 	}
 	if stalls > 0 {
 		c.TimeoutMs = int64(rapid.SampledFrom([]int{200, 350}).Draw(t, "timeoutMs"))
+	} else if rapid.IntRange(0, 3).Draw(t, "slowInit") == 0 {
+		c.InitDelayMs = rapid.IntRange(400, 900).Draw(t, "initDelayMs")
 	}
 	return c
 }
@@ -359,6 +377,8 @@ func c01Fixed() []c01Case {
 			{Payload: kit.Blob{Len: 20, Seed: 2, Kind: "json"}, Kind: "ok"},
 			{Payload: kit.Blob{Len: 20, Seed: 3, Kind: "json"}, Kind: "crash"},
 			{Payload: kit.Blob{Len: 7, Seed: 4, Kind: "ascii"}, Kind: "ok"}}},
+		{TimeoutMs: 5000, TimeoutEnvS: 3, InitDelayMs: 600, Ext: true, Invs: []c01Inv{
+			{Payload: kit.Blob{Len: 17, Seed: 1, Kind: "ascii"}, Kind: "ok"}, {Payload: kit.Blob{Len: 18, Seed: 2, Kind: "ascii"}, Kind: "ok"}}},
 		{TimeoutMs: 5000, TimeoutEnvS: 3, Invs: []c01Inv{
 			{Payload: kit.Blob{Len: maxPayload + 1, Seed: 1, Kind: "random"}, Kind: "ok"},
 			{Payload: kit.Blob{Len: 3, Seed: 2, Kind: "ascii"}, Kind: "oversize"},
